@@ -133,6 +133,25 @@ HISTORY = {
     "C13/H7-m2": ("missed", "keyless messages in the concurrent hash unit (+ panics inside Balance are reported as such)"),
     "C10/H10-m1": ("missed", "Conn programs against a broker limited to Produce v2, with SetRequiredAcks next to the writes"),
     "C10/H10-m2": ("missed", "client variant multi-bootstrap (kafka.TCP with two addresses)"),
+    # round 8
+    "C01/I1-m1": ("missed", "wsim: MaxAttempts left unset or negative (the default of 10 applies)"),
+    "C01/I1-m2": ("missed", "wsim: brokers limited to Produce v0 / v1 (C04's response-decode unit reported it too)"),
+    "C11/I1-m1": ("missed", "operation CreateTopics3 (three topics in one request) + error field first-topic (fakecluster ErrorFirstOnly)"),
+    "C11/I1-m2": ("missed", "NOT CAUGHT: after the malformed fetch header the Conn is left open but misaligned, and every later operation still fails (io.ErrNoProgress) as the statement demands, unless the unread bytes are crafted to look like the answer with the next correlation id; the fake broker sends no such frames"),
+    "C13/I3-m1": ("missed", "RoundRobin offered partition lists of varying length (one balancer behind several topics)"),
+    "C13/I3-m2": ("missed", "unit TestWriterOffers: what real Writers offer their balancer for topics of up to 400 partitions, in histories that make the cached list grow"),
+    "C04/I4-m1": ("missed", "NOT CAUGHT by C04's check (its fetch responses are read from their first record); reported by C05's and C02's checks (fetches that start inside a v0/v1 wrapper with null keys)"),
+    "C04/I4-m2": ("missed", "the round trip also through protocol.Marshal / Unmarshal, with decodes of cut-off prefixes in between"),
+    "C14/I4-m2": ("missed", "partitions listed with an error of their own (Partition.Error)"),
+    "C07/I7-m1": ("missed", "permanent errors and slow answers among the faults of the ordering scenarios"),
+    "C08/I8-m1": ("missed", "NOT CAUGHT by C08's check (batches that are never sent are not late); reported by C01's check (acknowledged without a produce request)"),
+    "C18/I8-m1": ("missed", "faults empty-server-first / empty-server-final (no bytes and no error code where SCRAM expects the server's message)"),
+    "C18/I8-m2": ("missed", "entry groupreader (a consumer-group Reader with the mechanism in its Dialer)"),
+    "C19/I9-m1": ("missed", "error code -1 (UNKNOWN_SERVER_ERROR) among the injected codes"),
+    "C19/I9-m2": ("missed", "NOT CAUGHT by C19's check (one query per Conn after a refused one); reported by C11's check (next operation after a broker error code)"),
+    "C10/I10-m2": ("missed", "NOT CAUGHT by C10's check (no program of its menu decodes a bad gzip header); reported by C16's check (history independence of pooled readers)"),
+    "C06/I6-m1": ("missed", "a failed compressed write (codec that cannot be set up) before the concurrent batch reads"),
+    "C16/I6-m1": ("missed", "two ReadFrom calls into one writer (WritePlan.Split)"),
 }
 
 
